@@ -668,7 +668,7 @@ def expand_includes(path, depth=0):
     return out
 
 
-def process(template_path, repo, meta):
+def process(template_path, repo, meta, twin=None):
     tmpl = expand_includes(template_path)
     out = []
     sources = {}
@@ -819,6 +819,9 @@ def process(template_path, repo, meta):
                     body = re.sub(pat, am.group(2).strip(), body)
                     counts["R8"] = counts.get("R8", 0) + 1
         body2 = apply_rewrites(body, counts)
+        if twin is not None and twin == new_name + "@" + container:
+            # vacuity twin: the precondition must not be contradictory, so `assert(false)` has to FAIL
+            sections = [("hint", "start", "assert(false);")] + sections
         body3 = splice(body2, sections, name)
         out.append(sig + "\n" + spec_text + body3)
         meta["items"].append({
